@@ -233,10 +233,10 @@ func (e *Env) localByName(name string) (Val, bool) {
 		}
 	}
 	if pick == nil {
-		// declared in the function but not (yet) on this path: an arbitrary
-		// value (a clause that mentions it must hold whatever it is)
+		// declared in the function but not (yet) on this path: it reads as
+		// the zero value of its type (the convention of the contract language)
 		T := cands[0].Type().(*types.Pointer).Elem()
-		return e.x.freshVal(e.st, "undeclared_"+want, T), true
+		return Val{T: e.x.te.Zero(T), Typ: T}, true
 	}
 	pv, ok := e.fr.vals[pick]
 	if !ok {
@@ -430,6 +430,46 @@ func (e *Env) evalIdent(name string) Val {
 	}
 	_ = x
 	return e.fail("unknown identifier %q", name)
+}
+
+// seqItemType: the Go type of the items of the producer ("yseq:") or consumer
+// ("oseq:") sequence of the function under verification.
+func (e *Env) seqItemType(pre string) types.Type {
+	x := e.x
+	fn := x.fn
+	if fn == nil {
+		return nil
+	}
+	if pre == "yseq:" {
+		// the first parameter of the parameter (or captured variable) named yield
+		for _, f := range []*ssa.Function{fn, rootFn(fn)} {
+			for _, p := range f.Params {
+				if strings.HasPrefix(p.Name(), "yield") {
+					if sig, ok := p.Type().Underlying().(*types.Signature); ok && sig.Params().Len() > 0 {
+						return sig.Params().At(0).Type()
+					}
+				}
+			}
+			for _, p := range f.FreeVars {
+				if strings.HasPrefix(p.Name(), "yield") {
+					if pt, ok := p.Type().(*types.Pointer); ok {
+						if sig, ok := pt.Elem().Underlying().(*types.Signature); ok && sig.Params().Len() > 0 {
+							return sig.Params().At(0).Type()
+						}
+					}
+				}
+			}
+		}
+		return nil
+	}
+	// consumer: the first parameter of a closure created in fn whose result is bool
+	var T types.Type
+	for _, af := range fn.AnonFuncs {
+		if af.Signature.Results().Len() == 1 && len(af.Params) >= 1 {
+			T = af.Params[0].Type()
+		}
+	}
+	return T
 }
 
 // typedArgs gives untyped nil arguments of a spec-level call the zero value
@@ -778,7 +818,18 @@ func (e *Env) matchCalls(lst SList) Term {
 func (e *Env) matchEvent(ev *CallEvent, c SCall) Term {
 	x := e.x
 	var conds []Term
-	switch f := c.Fun.(type) {
+	fun := c.Fun
+	if sel, ok := fun.(SSel); ok {
+		if id, ok := sel.X.(SIdent); ok {
+			if _, isVar := e.vars[id.Name]; !isVar {
+				if _, isLocal := e.localByName(id.Name); !isLocal && e.findPackage(id.Name) != nil && (e.pkg == nil || e.pkg.Scope().Lookup(id.Name) == nil) {
+					// pkg.Func(...): a package-level function, not a method call
+					fun = SIdent{Name: "\x00pkgfunc"}
+				}
+			}
+		}
+	}
+	switch f := fun.(type) {
 	case SSel:
 		// method on an interface value / static method on a receiver / func-typed field
 		recv := e.eval(f.X)
@@ -1004,6 +1055,47 @@ func (e *Env) evalCall(n SCall) Val {
 			present := And(Not(Eq(h.T, IntLit(0))), Select(Select(has, h.T), k))
 			lst := Select(Select(val, h.T), k)
 			return Val{T: Ite(And(present, Gt(sliceLen(lst), IntLit(0))), Select(sliceArr(lst), IntLit(0)), StrLit("")), Typ: types.Typ[types.String]}
+		case "yielded":
+			// yielded(): how many items this producer has handed to its consumer so far
+			if t, ok := e.st.ghost["ycnt"]; ok {
+				return Val{T: t, Typ: types.Typ[types.Int]}
+			}
+			return Val{T: IntLit(0), Typ: types.Typ[types.Int]}
+		case "yieldedAt", "offeredAt":
+			pre := "yseq:"
+			if id.Name == "offeredAt" {
+				pre = "oseq:"
+			}
+			i := e.eval(n.Args[0])
+			T := e.seqItemType(pre)
+			for k, seq := range e.st.ghost {
+				if strings.HasPrefix(k, pre) {
+					return Val{T: Select(seq, i.T), Typ: T}
+				}
+			}
+			if T != nil {
+				// nothing yielded/offered yet on this path: the (empty) sequence
+				var seq Term
+				if pre == "yseq:" {
+					_, seq = x.yieldGhost(e.st, x.te.SortOf(T))
+				} else {
+					_, seq = x.offerGhost(e.st, x.te.SortOf(T))
+				}
+				return Val{T: Select(seq, i.T), Typ: T}
+			}
+			return e.fail("%s(): no item sequence in this function", id.Name)
+		case "yieldedErr":
+			if t, ok := e.st.ghost["yerr"]; ok {
+				return Val{T: t, Typ: types.Universe.Lookup("error").Type()}
+			}
+			return Val{T: NilIface, Typ: types.Universe.Lookup("error").Type()}
+		case "offered":
+			if t, ok := e.st.ghost["ocnt"]; ok {
+				return Val{T: t, Typ: types.Typ[types.Int]}
+			}
+			return Val{T: IntLit(0), Typ: types.Typ[types.Int]}
+		case "stopped":
+			return Val{T: e.st.stopped, Typ: boolT}
 		case "copyErr":
 			// copyErr(): the error returned by the last io.Copy on this path (nil if none ran)
 			if t, ok := e.st.ghost["copyerr"]; ok {
